@@ -1,9 +1,78 @@
 (* Props/C08.v — mailbox names cannot reach outside the user's own mail store.
-   Only statements, each closed by [exact] and followed by Print Assumptions. *)
-From PV Require Import Base.Prelude Namespace.NsBase Namespace.MdModel Namespace.Paths
-     Namespace.PathsProofs.
+   Only statements, each closed by [exact] and followed by Print Assumptions.
 
-Theorem C08_refuted_dot_legacy :
-  normpath (legacy_get_path LPlus R_U1 [46]%N) = [[114]]%N.
+   [root_str rc] is the user's directory '/c1/c2/...' (clean components),
+   [normpath] is posixpath.normpath as a component list, [get_path] the two
+   maildir layouts' path construction, [valid_part] the guard of
+   layout._valid_part as implemented, [paths_touched] the name-derived
+   directories a command makes the backend touch (Paths.anchors). *)
+From PV Require Import Base.Prelude Namespace.NsBase Namespace.NsModel Namespace.MdModel
+     Namespace.Paths Namespace.PathsProofs.
+
+(* a name accepted by the guard is mapped, by either layout, to a path that
+   normalises to the user's directory plus at least one more component *)
+Theorem C08_get_path_confined : forall l rc parts,
+  rc <> [] -> Forall (fun c => clean c = true) rc ->
+  parts <> [] -> Forall (fun p => valid_part l p = true) parts ->
+  strictly_inside rc (normpath (get_path l (root_str rc) parts)).
+Proof. exact get_path_strictly_inside. Qed.
+Print Assumptions C08_get_path_confined.
+
+(* for every command with every name, in every state that any program of
+   commands reaches from an empty store, every name-derived directory touched
+   lies strictly inside the user's directory (refused names touch nothing) *)
+Theorem C08_confined : forall uid0 l rc prog c p, root_ok rc ->
+  In p (paths_touched l (root_str rc) (mrun uid0 l md_init prog) c) ->
+  strictly_inside rc (normpath p).
+Proof. exact confined_all. Qed.
+Print Assumptions C08_confined.
+
+(* everything else the backend touches is such a directory extended by
+   server-chosen components *)
+Theorem C08_inside_extend : forall rc q c, strictly_inside rc q -> strictly_inside rc (q ++ [c]).
+Proof. exact inside_extend. Qed.
+Print Assumptions C08_inside_extend.
+
+(* DELETE never walks/removes the user's directory itself (nor anything
+   outside it): INBOX is refused by do_delete, other names by the guard *)
+Theorem C08_delete_not_root : forall l rc n0 p, root_ok rc ->
+  In p (delete_target l (root_str rc) n0) -> strictly_inside rc (normpath p).
+Proof. exact delete_target_inside. Qed.
+Print Assumptions C08_delete_not_root.
+
+Theorem C08_rename_not_root : forall l rc a0 b0 p, root_ok rc ->
+  In p (rename_targets l (root_str rc) a0 b0) -> strictly_inside rc (normpath p).
+Proof. exact rename_targets_inside. Qed.
+Print Assumptions C08_rename_not_root.
+
+(* the hypotheses are satisfiable: the root "/r/u1" *)
+Theorem C08_root_example : root_ok RC_U1.
+Proof. exact root_ok_u1. Qed.
+Print Assumptions C08_root_example.
+
+(* dict backend: the store is a map from identity to MailboxSet; a program of
+   one user leaves every other user's entry as it was *)
+Theorem C08_dict_isolation : forall uid0 (s : dstore) u v prog, u <> v ->
+  alookup v (fold_left (fun s o => dstore_step uid0 s u o) prog s) = alookup v s.
+Proof. exact dict_isolation. Qed.
+Print Assumptions C08_dict_isolation.
+
+(* the code before the fix (no guard in _split) is refuted by the names ".",
+   "/", "" (++ layout) and "../u2" (fs layout) *)
+Theorem C08_legacy_refuted :
+  exists l n, n <> INBOX /\ ~ strictly_inside RC_U1 (normpath (legacy_get_path l R_U1 n)).
+Proof. exact legacy_refuted. Qed.
+Print Assumptions C08_legacy_refuted.
+
+Theorem C08_legacy_dot : normpath (legacy_get_path LPlus R_U1 [46]%N) = [[114]]%N.
 Proof. exact legacy_dot_escapes. Qed.
-Print Assumptions C08_refuted_dot_legacy.
+Print Assumptions C08_legacy_dot.
+
+Theorem C08_legacy_empty : normpath (legacy_get_path LPlus R_U1 []) = RC_U1.
+Proof. exact legacy_empty_is_root. Qed.
+Print Assumptions C08_legacy_empty.
+
+Theorem C08_legacy_dotdot_fs :
+  normpath (legacy_get_path LFs R_U1 [46;46;47;117;50]%N) = [[114]; [117;50]]%N.
+Proof. exact legacy_dotdot_fs. Qed.
+Print Assumptions C08_legacy_dotdot_fs.
